@@ -413,49 +413,46 @@ end RbModel.Flags
   Same instruments as in Props/C03.lean (`matchInputI`, `chainMatchI`: the model's matchers returning the glyphs they READ;
   `C03_match_instrumented_same`: nothing new is trusted).  When a contextual rule / a ligature declines, the reason may be any
   glyph it looked at — changing the text there can make the rule apply — so the span passed to `unsafe_to_concat*` has to cover
-  the reads "up to and including the glyph that made it fail".  Proved below, path by path, for what the code REALLY does:
+  the reads "up to and including the glyph that made it fail".  Proved below, path by path, for what the code does:
 
   * match_input fails in the skipping iterator (`why = iter`: mismatch, or the buffer / the syllable ended): `end_position` is
     the iterator's `unsafe_to` = index of the stop glyph + 1, the span `[idx, end_position)` covers every read;
+  * match_input fails in the ligature-component rules (`why = ligComp`): `end_position` = index of the declining glyph + 1.
+    REPAIRED: on the pinned tree the two `return false` of that block did not write `*end_position`, the callers passed the
+    initial 0 and `unsafe_to_concat(idx, 0)` flagged nothing (chain rules: `max(0, idx)`, the empty span) — found here as the
+    one path whose span provably did not cover its reads, reproduced on the crate (redistribution sentence violated), repaired
+    by "fix: match_input left end_position unset when it declined in the ligature-component rules"; `C04_ligcomp_fail_flagged`
+    is the regression witness (HarfBuzz's match_input still has the two bare returns);
   * the lookahead fails: `end_index` = the lookahead iterator's `unsafe_to`, `[idx, end_index)` covers input and lookahead reads;
   * the backtrack fails: `unsafe_to_concat_from_outbuffer(start_index, end_index)`, `start_index` = the backward iterator's
     `unsafe_from`, covers backtrack, input and lookahead reads;
-  * `count > MAX_CONTEXT_LENGTH`: nothing was read;
-  * **match_input fails in the ligature-component rules (`why = ligComp`) — FINDING**: the three `return false` of that block
-    do not write `*end_position`; the callers pass the initial 0, `unsafe_to_concat(idx, 0)` flags NOTHING (chain rules:
-    `end_index = max(0, idx) = idx`, the empty span), although the matcher read `info[idx]`, the glyphs it skipped and the
-    glyph whose lig_id / lig_comp made it decline.  `known_C04_ligcomp_fail_unflagged` is the closed witness; the same font
-    and text violate the redistribution sentence of C04 on the crate (see its comment).  HarfBuzz's match_input has the same
-    three returns.
+  * `count > MAX_CONTEXT_LENGTH`: nothing was read.
 
   The flag statements need PRODUCE_UNSAFE_TO_CONCAT to be requested (otherwise `unsafe_to_concat` is a no-op by design). -/
 namespace RbModel.Flags
 open RbModel RbModel.Gsub
 
-/-- **a context rule that declined flagged what it inspected — except on the ligature-component path** (`apply_context`,
-    Context formats 1 and 2; format 3 inline).  When the rule returns `(c', false)`: match_input failed with reads `R.reads`,
-    the only effect is `unsafe_to_concat(idx, end_position)`; if it failed in the skipping iterator (`iter`) then
-    `idx < end_position ≤ len` and every glyph read — the skipped ones and the one that stopped the matcher — lies in
-    `[idx, end_position)` and carries UNSAFE_TO_CONCAT afterwards (`ConcatFlagged`: the old glyph with `mask |= CONCAT`);
-    if it failed at the length test nothing was read; if it failed in the ligature-component rules (`ligComp`) then
-    `end_position = 0` and NO glyph was flagged (`info` and `out` unchanged) although at least `info[idx]` was read.
+/-- **a context rule that declined flagged everything it inspected — the common form of Context formats 1, 2 and 3**
+    ("match_input with `fn` over `n` further glyphs, then `contextFinish`").  When it returns `(c', false)`: match_input failed
+    with reads `R.reads`, the only effect is `unsafe_to_concat(idx, end_position)`; unless it failed at the length test
+    (nothing read) `idx < end_position ≤ len`, the current glyph is among the reads, and every in-buffer glyph read — the
+    skipped ones and the one that stopped the matcher, in the iterator as well as in the ligature-component rules — lies in
+    `[idx, end_position)` and carries UNSAFE_TO_CONCAT afterwards (`ConcatFlagged`: the old glyph with `mask |= CONCAT`).
     Every font, rule, buffer; no monotonicity needed. -/
-theorem C04_context_fail_flags_inspected (recurse : Ctx → Nat → M (Ctx × Bool)) (c c' : Ctx) (input : List Nat)
-    (matchFn : Nat → Nat → Bool) (lookups : List Rec)
-    (h : applyContextRule recurse c input matchFn lookups = .ok (c', false))
+theorem C04_contextI_fail_flags_inspected (recurse : Ctx → Nat → M (Ctx × Bool)) (c c' : Ctx) (n : Nat)
+    (fn : Nat → Nat → Bool) (lookups : List Rec)
+    (h : (matchInputI c n fn [0, 0, 0, 0] >>= contextFinish recurse c n lookups) = .ok (c', false))
     (hidx : c.buf.idx < c.buf.len) (hlen : c.buf.len ≤ c.buf.info.length)
     (hreq : c.buf.flags &&& Gen.Buf.produceUnsafeToConcat ≠ 0) :
     ∃ (R : MatchInI),
-      matchInputI c input.length (fun g i => matchFn g (input.getD i 0)) [0, 0, 0, 0] = .ok R ∧ R.r.ok = false ∧
+      matchInputI c n fn [0, 0, 0, 0] = .ok R ∧ R.r.ok = false ∧
       c.buf.unsafeToConcat c.buf.idx (some R.r.endPos) = .ok c'.buf ∧ c' = { c with buf := c'.buf } ∧
-      (R.why = .iter → c.buf.idx < R.r.endPos ∧ R.r.endPos ≤ c.buf.len ∧
+      (R.why ≠ .tooLong → c.buf.idx < R.r.endPos ∧ R.r.endPos ≤ c.buf.len ∧ Rd.inp c.buf.idx ∈ R.reads ∧
         ∀ i, Rd.inp i ∈ R.reads → c.buf.idx ≤ i ∧ i < R.r.endPos ∧
           ∃ x, c.buf.info[i]? = some x ∧ ConcatFlagged c'.buf.info i x) ∧
       (R.why = .tooLong → R.reads = []) ∧
-      (R.why = .ligComp → R.r.endPos = 0 ∧ Rd.inp c.buf.idx ∈ R.reads ∧ c'.buf.info = c.buf.info ∧ c'.buf.out = c.buf.out) ∧
       R.why ≠ .matched ∧ (∀ j, Rd.out j ∉ R.reads) ∧ (∀ j, Rd.lig j ∈ R.reads → j < c.buf.outLen) := by
-  rw [applyContextRule_eq] at h
-  cases hR : matchInputI c input.length (fun g i => matchFn g (input.getD i 0)) [0, 0, 0, 0] with
+  cases hR : matchInputI c n fn [0, 0, 0, 0] with
   | error e => simp only [hR, bind, Except.bind] at h; cases h
   | ok R =>
     simp only [hR, bind, Except.bind, contextFinish] at h
@@ -466,7 +463,7 @@ theorem C04_context_fail_flags_inspected (recurse : Ctx → Nat → M (Ctx × Bo
       | error e => simp [hb] at h
       | ok b =>
         simp only [hb] at h
-        cases hal : applyLookup recurse { c with buf := b } input.length R.r.positions R.r.endPos lookups with
+        cases hal : applyLookup recurse { c with buf := b } n R.r.positions R.r.endPos lookups with
         | error e => simp [hal] at h
         | ok c2 => simp [hal, pure, Except.pure] at h
     | false =>
@@ -478,6 +475,54 @@ theorem C04_context_fail_flags_inspected (recurse : Ctx → Nat → M (Ctx × Bo
         subst h
         exact ⟨R, rfl, hok, hb, rfl, matchFail_flags c _ _ _ R b hR hok hb hidx hlen hreq⟩
 
+/-- **a context rule that declined flagged everything it inspected** (`apply_context`, Context formats 1 and 2): the instance
+    of `C04_contextI_fail_flags_inspected` for `applyContextRule`. -/
+theorem C04_context_fail_flags_inspected (recurse : Ctx → Nat → M (Ctx × Bool)) (c c' : Ctx) (input : List Nat)
+    (matchFn : Nat → Nat → Bool) (lookups : List Rec)
+    (h : applyContextRule recurse c input matchFn lookups = .ok (c', false))
+    (hidx : c.buf.idx < c.buf.len) (hlen : c.buf.len ≤ c.buf.info.length)
+    (hreq : c.buf.flags &&& Gen.Buf.produceUnsafeToConcat ≠ 0) :
+    ∃ (R : MatchInI),
+      matchInputI c input.length (fun g i => matchFn g (input.getD i 0)) [0, 0, 0, 0] = .ok R ∧ R.r.ok = false ∧
+      c.buf.unsafeToConcat c.buf.idx (some R.r.endPos) = .ok c'.buf ∧ c' = { c with buf := c'.buf } ∧
+      (R.why ≠ .tooLong → c.buf.idx < R.r.endPos ∧ R.r.endPos ≤ c.buf.len ∧ Rd.inp c.buf.idx ∈ R.reads ∧
+        ∀ i, Rd.inp i ∈ R.reads → c.buf.idx ≤ i ∧ i < R.r.endPos ∧
+          ∃ x, c.buf.info[i]? = some x ∧ ConcatFlagged c'.buf.info i x) ∧
+      (R.why = .tooLong → R.reads = []) ∧
+      R.why ≠ .matched ∧ (∀ j, Rd.out j ∉ R.reads) ∧ (∀ j, Rd.lig j ∈ R.reads → j < c.buf.outLen) := by
+  rw [applyContextRule_eq] at h
+  exact C04_contextI_fail_flags_inspected recurse c c' _ _ lookups h hidx hlen hreq
+
+/-- **a Context format 3 subtable that declined**: either the current glyph is not covered (nothing but the current glyph was
+    looked at, nothing changes: `c' = c`), or it is the instance of `C04_contextI_fail_flags_inspected` for the inline code of
+    format 3 (`C03_context3_instrumented_same`). -/
+theorem C04_context3_fail_flags_inspected (recurse : Ctx → Nat → M (Ctx × Bool)) (nf : Bool) (c c' : Ctx) (cov : Cov)
+    (restCovs : List Cov) (lookups : List Rec)
+    (h : applySubtable recurse nf c (.context3 (cov :: restCovs) lookups) = .ok (c', false))
+    (hidx : c.buf.idx < c.buf.len) (hlen : c.buf.len ≤ c.buf.info.length)
+    (hreq : c.buf.flags &&& Gen.Buf.produceUnsafeToConcat ≠ 0) :
+    (c' = c ∧ ∃ cur, c.buf.info[c.buf.idx]? = some cur ∧ cov.index (cur.gid % 65536) = none) ∨
+    ∃ (R : MatchInI),
+      matchInputI c restCovs.length (fun g i => nthCov restCovs i g) [0, 0, 0, 0] = .ok R ∧ R.r.ok = false ∧
+      c.buf.unsafeToConcat c.buf.idx (some R.r.endPos) = .ok c'.buf ∧ c' = { c with buf := c'.buf } ∧
+      (R.why ≠ .tooLong → c.buf.idx < R.r.endPos ∧ R.r.endPos ≤ c.buf.len ∧ Rd.inp c.buf.idx ∈ R.reads ∧
+        ∀ i, Rd.inp i ∈ R.reads → c.buf.idx ≤ i ∧ i < R.r.endPos ∧
+          ∃ x, c.buf.info[i]? = some x ∧ ConcatFlagged c'.buf.info i x) ∧
+      (R.why = .tooLong → R.reads = []) ∧
+      R.why ≠ .matched ∧ (∀ j, Rd.out j ∉ R.reads) ∧ (∀ j, Rd.lig j ∈ R.reads → j < c.buf.outLen) := by
+  rw [context3_eq] at h
+  cases hg : Mem.get c.buf.info c.buf.idx with
+  | error e => simp only [hg, bind, Except.bind] at h; cases h
+  | ok cur =>
+    simp only [hg, bind, Except.bind] at h
+    cases hc : cov.index (cur.gid % 65536) with
+    | none =>
+      simp only [hc, pure, Except.pure, Except.ok.injEq, Prod.mk.injEq, and_true] at h
+      exact Or.inl ⟨h.symm, cur, Mem.get_eq_ok hg, hc⟩
+    | some i =>
+      simp only [hc] at h
+      exact Or.inr (C04_contextI_fail_flags_inspected recurse c c' _ _ lookups h hidx hlen hreq)
+
 -- non-vacuity: the rule "1 (marks ignored) 3" on glyphs 5 | 1 mark 2 3 declines AT glyph 2 (index 3); reads = [1, 2, 3] =
 -- current glyph, skipped mark, stop glyph; all three get UNSAFE_TO_CONCAT
 example : (matchInputI spanCtx 1 (fun g i => g == [3].getD i 0) [0, 0, 0, 0]).map MatchInI.view
@@ -487,6 +532,8 @@ example : ∃ c', applyContextRule spanNoRecurse spanCtx [3] (fun g v => g == v)
     spanCtx.buf.idx < spanCtx.buf.len ∧ spanCtx.buf.len ≤ spanCtx.buf.info.length ∧
     spanCtx.buf.flags &&& Gen.Buf.produceUnsafeToConcat ≠ 0 :=
   ⟨_, rfl, rfl, by decide, by decide, by decide⟩
+example : ∃ c', applySubtable spanNoRecurse true spanCtx (.context3 [[1], [3]] []) = .ok (c', false) ∧
+    c'.buf.info.map (·.mask) = [1, 3, 3, 3, 1] := ⟨_, rfl, rfl⟩
 
 /-- **Ligature::apply, a ligature that declines** (`comps` non-empty): the same statement as for a context rule -/
 theorem C04_ligature_fail_flags_inspected (c c' : Ctx) (comps : List Nat) (lig : Nat) (hne : comps.isEmpty = false)
@@ -496,11 +543,10 @@ theorem C04_ligature_fail_flags_inspected (c c' : Ctx) (comps : List Nat) (lig :
     ∃ (R : MatchInI),
       matchInputI c comps.length (fun g i => g == comps.getD i 0) [0, 0, 0, 0] = .ok R ∧ R.r.ok = false ∧
       c.buf.unsafeToConcat c.buf.idx (some R.r.endPos) = .ok c'.buf ∧ c' = { c with buf := c'.buf } ∧
-      (R.why = .iter → c.buf.idx < R.r.endPos ∧ R.r.endPos ≤ c.buf.len ∧
+      (R.why ≠ .tooLong → c.buf.idx < R.r.endPos ∧ R.r.endPos ≤ c.buf.len ∧ Rd.inp c.buf.idx ∈ R.reads ∧
         ∀ i, Rd.inp i ∈ R.reads → c.buf.idx ≤ i ∧ i < R.r.endPos ∧
           ∃ x, c.buf.info[i]? = some x ∧ ConcatFlagged c'.buf.info i x) ∧
       (R.why = .tooLong → R.reads = []) ∧
-      (R.why = .ligComp → R.r.endPos = 0 ∧ Rd.inp c.buf.idx ∈ R.reads ∧ c'.buf.info = c.buf.info ∧ c'.buf.out = c.buf.out) ∧
       R.why ≠ .matched ∧ (∀ j, Rd.out j ∉ R.reads) ∧ (∀ j, Rd.lig j ∈ R.reads → j < c.buf.outLen) := by
   rw [ligatureRule_eq c (comps, lig) hne] at h
   cases hR : matchInputI c comps.length (fun g i => g == comps.getD i 0) [0, 0, 0, 0] with
@@ -522,23 +568,24 @@ theorem C04_ligature_fail_flags_inspected (c c' : Ctx) (comps : List Nat) (lig :
         subst h
         exact ⟨R, rfl, hok, hb, rfl, matchFail_flags c _ _ _ R b hR hok hb hidx hlen hreq⟩
 
-/-- **FINDING (known, same upstream): a ligature / context rule that declines in the ligature-component rules of match_input
-    flags nothing.**  Buffer x, LIG, M₁, M₂ where LIG is a ligature made earlier in the same run (lig_id 1), M₁ a mark that
+/-- **regression witness of the repaired ligature-component path** (was `known_C04_ligcomp_fail_unflagged`: `end_position` 0,
+    masks unchanged).  Buffer x, LIG, M₁, M₂ where LIG is a ligature made earlier in the same run (lig_id 1), M₁ a mark that
     `ligate_input` attached to its first component (lig_id 1, lig_comp 1), M₂ the same mark glyph unattached; lookup flag
     IgnoreLigatures, ligature "x M -> 99", PRODUCE_UNSAFE_TO_CONCAT requested.  The matcher reads x, steps over LIG, reaches M₁
-    and declines because M₁ belongs to another ligature — reads `[inp 0, inp 1, inp 2]`, `end_position` = 0 — and the rule
-    returns with every mask unchanged.  With M₁ unattached (second conjunct) the very same rule applies: the decision depended
-    on glyph 2, which is not flagged.
-    On the crate (fontbuild recipe: 7 glyphs, cmap a b c d -> 1 2 3 4, GDEF classes 1:1 2:1 3:1 4:3 5:2 6:1, feature ccmp =
-    [ligature flag 8 cov [2] comps [3] -> 5, ligature flag 4 cov [1] comps [4] -> 6]; request
-    `shape W0 l Latn - 64 0 - - - 61:0,62:1,64:2,63:3,64:4`): the whole text gives 1 5 4 4 with NO glyph flag, so the
-    clusters 0 | 1 | 4 are CONCAT-free segments; the even text `61:0,64:4` gives the single glyph 6 — the redistribution
-    sentence of C04 fails (levels 0 and 1). -/
-theorem known_C04_ligcomp_fail_unflagged :
+    and declines because M₁ belongs to another ligature — reads `[inp 0, inp 1, inp 2]` — and now reports `end_position` = 3:
+    x, LIG and M₁ carry UNSAFE_TO_CONCAT (mask 1 -> 3), M₂ does not.  With M₁ unattached (third conjunct) the very same rule
+    applies: the decision depended on glyph 2, which is flagged now.
+    On the crate (fontbuild recipe `flagslib.WITNESS_FONTS["ligcomp-concat"]`: 7 glyphs, cmap a b c d -> 1 2 3 4, GDEF classes
+    1:1 2:1 3:1 4:3 5:2 6:1, feature ccmp = [ligature flag 8 cov [2] comps [3] -> 5, ligature flag 4 cov [1] comps [4] -> 6];
+    text `abdcd`, request `shape W0 l Latn - 64 0 - - - 61:0,62:1,64:2,63:3,64:4`): before the repair the whole text gave
+    1 5 4 4 with NO glyph flag and the even text `61:0,64:4` of the redistribution gave the single glyph 6; after it the
+    clusters 0 and 1 carry UNSAFE_TO_CONCAT and the redistribution experiment passes (permanent case of
+    `concat-redistribution-synth`). -/
+theorem C04_ligcomp_fail_flagged :
     (matchInputI (spanLigCtx (8 + 33 * 65536)) 1 (fun g i => g == [10].getD i 0) [0, 0, 0, 0]).map MatchInI.view
-      = .ok (false, 0, [.inp 0, .inp 1, .inp 2], .ligComp) ∧
+      = .ok (false, 3, [.inp 0, .inp 1, .inp 2], .ligComp) ∧
     (ligatureRule (spanLigCtx (8 + 33 * 65536)) ([10], 99)).map (fun r => (r.1.buf.info.map (·.mask), r.2))
-      = .ok ([1, 1, 1, 1], false) ∧
+      = .ok ([3, 3, 3, 1], false) ∧
     (ligatureRule (spanLigCtx 8) ([10], 99)).map (fun r => ((r.1.buf.outArr.take r.1.buf.outLen).map (·.gid), r.2))
       = .ok ([99, 20], true) ∧
     (spanLigCtx (8 + 33 * 65536)).buf.flags &&& Gen.Buf.produceUnsafeToConcat ≠ 0 :=
@@ -550,13 +597,12 @@ example : ∃ c', ligatureRule (spanLigCtx (8 + 33 * 65536)) ([10], 99) = .ok (c
     (spanLigCtx (8 + 33 * 65536)).buf.len ≤ (spanLigCtx (8 + 33 * 65536)).buf.info.length :=
   ⟨_, rfl, by decide, by decide⟩
 
-/-- **a chain rule that declined flagged what it inspected — except on the ligature-component path** (`apply_chain_context`,
-    ChainContext formats 1-3; forward GSUB pass: `have_output`).  When the rule returns `(c', false)` the matching phase
-    `chainMatchI` ended with one of three verdicts:
+/-- **a chain rule that declined flagged everything it inspected** (`apply_chain_context`, ChainContext formats 1-3; forward
+    GSUB pass: `have_output`).  When the rule returns `(c', false)` the matching phase `chainMatchI` ended with one of three
+    verdicts:
     * `inputFail` / `aheadFail`: the only effect is `unsafe_to_concat(idx, end_index)` with `end_index = max(end_position, idx)`
-      resp. the lookahead iterator's `unsafe_to`; unless match_input failed in the ligature-component rules, every glyph read by
-      match_input and match_lookahead lies in `[idx, end_index)` and carries UNSAFE_TO_CONCAT afterwards; on the
-      ligature-component path `end_index = idx`: the empty span, nothing flagged;
+      resp. the lookahead iterator's `unsafe_to`; every glyph read by match_input and match_lookahead lies in `[idx, end_index)`
+      and carries UNSAFE_TO_CONCAT afterwards (the ligature-component path of match_input included);
     * `backFail`: the only effect is `unsafe_to_concat_from_outbuffer(start_index, end_index)`; every glyph read by match_input
       and match_lookahead lies in `info[idx, end_index)`, every glyph read by match_backtrack in `out[start_index, out_len)`, and
       all of them carry UNSAFE_TO_CONCAT afterwards (both output modes).
@@ -571,11 +617,8 @@ theorem C04_chain_fail_flags_inspected (recurse : Ctx → Nat → M (Ctx × Bool
       c.buf.idx ≤ m.endIndex ∧ m.endIndex ≤ c.buf.len ∧
       (m.verdict = .inputFail ∨ m.verdict = .aheadFail →
         c.buf.unsafeToConcat c.buf.idx (some m.endIndex) = .ok c'.buf ∧
-        (¬ (m.verdict = .inputFail ∧ m.R.why = .ligComp) →
-          ∀ i, Rd.inp i ∈ m.reads → c.buf.idx ≤ i ∧ i < m.endIndex ∧
-            ∃ x, c.buf.info[i]? = some x ∧ ConcatFlagged c'.buf.info i x) ∧
-        (m.verdict = .inputFail ∧ m.R.why = .ligComp →
-          m.endIndex = c.buf.idx ∧ c'.buf.info = c.buf.info ∧ c'.buf.out = c.buf.out)) ∧
+        ∀ i, Rd.inp i ∈ m.reads → c.buf.idx ≤ i ∧ i < m.endIndex ∧
+          ∃ x, c.buf.info[i]? = some x ∧ ConcatFlagged c'.buf.info i x) ∧
       (m.verdict = .backFail →
         m.startIndex ≤ c.buf.outLen ∧
         c.buf.unsafeToConcatFromOut m.startIndex (some m.endIndex) = .ok c'.buf ∧
@@ -583,6 +626,7 @@ theorem C04_chain_fail_flags_inspected (recurse : Ctx → Nat → M (Ctx × Bool
             ∃ x, c.buf.info[i]? = some x ∧ ConcatFlagged c'.buf.info i x) ∧
         (∀ j, Rd.out j ∈ m.reads → m.startIndex ≤ j ∧ j < c.buf.outLen ∧
             ∃ x, c.buf.outArr[j]? = some x ∧ ConcatFlagged c'.buf.outArr j x)) ∧
+      (∀ j, Rd.out j ∈ m.reads → m.verdict = .backFail) ∧
       (∀ j, Rd.lig j ∈ m.reads → j < c.buf.outLen) := by
   rw [applyChainRule_eq] at h
   cases hm : chainMatchI c nBack nIn nAhead fBack fIn fAhead with
@@ -597,41 +641,13 @@ theorem C04_chain_fail_flags_inspected (recurse : Ctx → Nat → M (Ctx × Bool
       · cases a1
       · cases a1
       · cases a1; exact a2
+    have hout : ∀ j, Rd.out j ∈ m.reads → m.verdict = .backFail ∨ m.verdict = .matched := by
+      intro j hj
+      rcases s7 _ hj with ⟨i', a1, _⟩ | ⟨j', a1, a2, _⟩ | ⟨j', a1, _⟩
+      · cases a1
+      · exact a2
+      · cases a1
     have hreq' : ¬ (c.buf.flags &&& Gen.Buf.produceUnsafeToConcat == 0) = true := by simpa using hreq
-    -- the two one-sided failure paths
-    have oneSided : (m.verdict = .inputFail ∨ m.verdict = .aheadFail) →
-        ∀ b, c.buf.unsafeToConcat c.buf.idx (some m.endIndex) = .ok b →
-        (¬ (m.verdict = .inputFail ∧ m.R.why = .ligComp) →
-          ∀ i, Rd.inp i ∈ m.reads → c.buf.idx ≤ i ∧ i < m.endIndex ∧
-            ∃ x, c.buf.info[i]? = some x ∧ ConcatFlagged b.info i x) ∧
-        (m.verdict = .inputFail ∧ m.R.why = .ligComp →
-          m.endIndex = c.buf.idx ∧ b.info = c.buf.info ∧ b.out = c.buf.out) := by
-      intro _ b hb
-      obtain ⟨b', hb', hu, hbb⟩ := unsafeToConcat_span c.buf c.buf.idx m.endIndex hreq s3 s4 hwf.len_le
-      rw [hb] at hb'; cases hb'
-      constructor
-      · intro hn i hi
-        rcases s7 _ hi with ⟨i', a1, a2, a3, a4⟩ | ⟨j, a1, _⟩ | ⟨j, a1, _⟩
-        · cases a1
-          have hlt' := a4 hn
-          have hil : i < c.buf.info.length := by have := hwf.len_le; omega
-          exact ⟨a2, hlt', _, List.getElem?_eq_getElem hil, ConcatFlagged.of_upd hu (List.getElem?_eq_getElem hil) a2 hlt'⟩
-        · cases a1
-        · cases a1
-      · intro ⟨hv, hw⟩
-        -- end_index = max 0 idx = idx: the span is empty
-        have he : m.endIndex = c.buf.idx := by
-          unfold chainMatchI at hm
-          rw [s0] at hm
-          have hok := s1.mp hv
-          simp only [bind, Except.bind, hok, Bool.not_false, if_true, pure, Except.pure, Except.ok.injEq] at hm
-          obtain ⟨_, _, r3, _, _⟩ := matchInputI_span c _ _ _ m.R s0 hidx
-          rw [← hm]
-          simp only
-          rw [r3 hw]; simp
-        rw [he] at hu
-        refine ⟨he, Upd.eq_of_empty hu, ?_⟩
-        rw [hbb]
     cases hv : m.verdict with
     | inputFail | aheadFail =>
       simp only [hv] at h
@@ -640,29 +656,38 @@ theorem C04_chain_fail_flags_inspected (recurse : Ctx → Nat → M (Ctx × Bool
       | ok b =>
         simp only [hb, pure, Except.pure, Except.ok.injEq, Prod.mk.injEq, and_true] at h
         subst h
-        refine ⟨m, rfl, by simp [hv], rfl, s3, s4, fun hvv => ⟨hb, oneSided hvv b hb⟩, fun hvv => ?_, hlig⟩
-        rw [hv] at hvv; cases hvv
+        obtain ⟨b', hb', hu, _⟩ := unsafeToConcat_span c.buf c.buf.idx m.endIndex hreq s3 s4 hwf.len_le
+        rw [hb] at hb'; cases hb'
+        refine ⟨m, rfl, by simp [hv], rfl, s3, s4, fun _ => ⟨hb, ?_⟩, fun hvv => ?_, fun j hj => ?_, hlig⟩
+        · intro i hi
+          rcases s7 _ hi with ⟨i', a1, a2, a3, a4⟩ | ⟨j, a1, _⟩ | ⟨j, a1, _⟩
+          · cases a1
+            have hil : i < c.buf.info.length := by have := hwf.len_le; omega
+            exact ⟨a2, a4, _, List.getElem?_eq_getElem hil, ConcatFlagged.of_upd hu (List.getElem?_eq_getElem hil) a2 a4⟩
+          · cases a1
+          · cases a1
+        · rw [hv] at hvv; cases hvv
+        · have := hout j hj; rw [hv] at this; rcases this with t | t <;> cases t
     | backFail =>
       simp only [hv] at h
       have hst : m.startIndex ≤ c.buf.outLen := by rw [← hbl]; exact s6 (Or.inl hv)
-      obtain ⟨b', o1, hb', U1, U2, hout, hbb⟩ :=
+      obtain ⟨b', o1, hb', U1, U2, hout', hbb⟩ :=
         setGlyphFlags_plain_out c.buf Flag.UNSAFE_TO_CONCAT m.startIndex m.endIndex hho hst hwf.out_cap s3 s4 hwf.len_le
       have hcall : c.buf.unsafeToConcatFromOut m.startIndex (some m.endIndex) = .ok b' := by
         unfold Buf.unsafeToConcatFromOut
         rw [if_neg hreq', hb']
       have hsep : b'.sepOut = c.buf.sepOut := by rw [hbb]
-      obtain ⟨t1, t2⟩ := twoSided_at U1 U2 hout hsep hwf.nosep_ok
+      obtain ⟨t1, t2⟩ := twoSided_at U1 U2 hout' hsep hwf.nosep_ok
       simp only [hcall, pure, Except.pure, Except.ok.injEq, Prod.mk.injEq, and_true] at h
       subst h
-      refine ⟨m, rfl, by simp [hv], rfl, s3, s4, fun hvv => ?_, fun _ => ⟨hst, hcall, ?_, ?_⟩, hlig⟩
+      refine ⟨m, rfl, by simp [hv], rfl, s3, s4, fun hvv => ?_, fun _ => ⟨hst, hcall, ?_, ?_⟩, fun _ _ => hv, hlig⟩
       · rw [hv] at hvv; rcases hvv with hvv | hvv <;> cases hvv
       · intro i hi
         rcases s7 _ hi with ⟨i', a1, a2, a3, a4⟩ | ⟨j, a1, _⟩ | ⟨j, a1, _⟩
         · cases a1
-          have hlt' := a4 (by simp [hv])
           have hil : i < c.buf.info.length := by have := hwf.len_le; omega
-          exact ⟨a2, hlt', _, List.getElem?_eq_getElem hil,
-            ConcatFlagged.of_eq (t1 i _ a2 hlt' (List.getElem?_eq_getElem hil))⟩
+          exact ⟨a2, a4, _, List.getElem?_eq_getElem hil,
+            ConcatFlagged.of_eq (t1 i _ a2 a4 (List.getElem?_eq_getElem hil))⟩
         · cases a1
         · cases a1
       · intro j hj
@@ -698,7 +723,6 @@ example : ∃ c', applyChainRule spanNoRecurse spanCtx 1 1 1 (fun g _ => g == 9)
   ⟨_, rfl, rfl, by decide, ⟨by decide, by decide, by simp [spanCtx], by decide⟩, rfl, by decide⟩
 
 end RbModel.Flags
-
 
 /-! ### the reverse-chaining subtable that declines -/
 namespace RbModel.Flags
